@@ -45,6 +45,7 @@
 // decimal port in 1..65534 (i.e. IPv6, aliases, boundary ports, lenient and invalid texts);
 // outcomes = (host kind, reference class and reason, observed result).
 #include "common/runner.h"
+#include "common/locale_env.h"
 
 #include <pistache/net.h>
 
@@ -508,6 +509,9 @@ static void read_back(const Address& a, Obs& o)
         memcpy(o.bytes, &x, 16);
     }
     std::ostringstream os;
+    // the caller's stream is the caller's business: printed into a stream with the classic locale (a stream imbued with a
+    // digit-grouping locale prints the port as any other number, "8,080" - the C++ convention, not pistache's choice)
+    os.imbue(std::locale::classic());
     os << a;
     o.printed = os.str();
 }
@@ -820,6 +824,17 @@ static void run_port(uint64_t i, vr::Ctx& ctx)
     else
         eval_port_ctor(ctx, p);
 }
+// the same port inputs while the process-wide C++ locale groups digits ("8,080") - the port given must not depend on it
+static void run_port_locale(uint64_t i, vr::Ctx& ctx)
+{
+    static const char* hosts[] = { "127.0.0.1", "[::1]", "*" };
+    vr::ScopedGlobalLocale loc(1 + int(i / 65536 / 3));
+    const char* h = hosts[i / 65536 % 3];
+    uint16_t p    = uint16_t(i % 65536);
+    eval_host_port(ctx, h, p);
+    if (p % 7 == 0 || p < 1200 || p > 65000)
+        eval_text(ctx, std::string(h) + ":" + std::to_string(p), true);
+}
 static void run_port_special(uint64_t i, vr::Ctx& ctx)
 {
     uint64_t np = gSpecialPorts.size();
@@ -1091,6 +1106,7 @@ int main(int argc, char** argv)
 
     add_section("quads", 20736, run_quad, 32);
     add_section("ports", ((gThorough ? gPortHostsAll.size() : gPortHostsFew.size()) + 1) * gPortTexts.size(), run_port);
+    add_section("ports-locale", 2 * 3 * 65536, run_port_locale);
     add_section("ports-special", gPortHostsAll.size() * gSpecialPorts.size(), run_port_special, 64);
     add_section("v4forms", count_v4forms(), run_v4forms);
     add_section("v6", nv6, run_v6, 128);
